@@ -185,6 +185,10 @@ def run(ctx, verdict, replay=None, model_ok=True):
         for i in range(nb):
             shapes = {k: rng.random() < 0.5 for k in pipegen.SHAPE_KEYS}
             shapes["nested_params"] = False   # the value of a nested parameter is C03's subject
+            shapes["mutual_params"] = False
+            # intersections with an inline struct branch (what language passes rewrite in place):
+            # every third base, with the languages that generate them
+            shapes["intersection"] = (i % 3 == 1)
             b = rng.random() < 0.7
             flags = {"builders": b, "converters": b and rng.random() < 0.5, "api_reference": rng.random() < 0.4}
             bases.append(("gen/%d" % i, pipegen.gen_case(rng, langs=pipegen.LANGS, shapes=shapes, flags=flags,
